@@ -485,7 +485,7 @@ fn sub_variants(input: &[u8], st: &mut Stats) -> R {
         }
         // rewriting changes exactly the corresponding word of the assembled instruction
         let before_ops = vec![Operand::IdRef(1), o.clone(), Operand::LiteralBit32(2)];
-        let mut inst = dr::Instruction::new(spirv::Op::Nop, None, None, before_ops);
+        let mut inst = crate::rs::mk_inst(spirv::Op::Nop, None, None, before_ops);
         let w0 = inst.assemble();
         let newv = 0xabc0_0000 + j as u32;
         let changed = match inst.operands[1].id_ref_any_mut() {
